@@ -173,7 +173,7 @@ func (e *engine) checkPatchLine(worker int, raw []byte) error {
 			}
 			ops = append(ops, &op)
 		}
-		if !legacyDomain(&ln, ops) {
+		if (e.prop != "C04" && !legacyDomain(&ln, ops)) || !lib.Supported(ln.Opts) {
 			e.rep.Label("LegacyOutsideDomain")
 			return nil
 		}
